@@ -24,13 +24,55 @@ EXPLANATION = ("transform algebra of the compound setters by frame typing, and s
                "by the same rigid motion as the collection; per-index path padding is not decided.")
 
 
+FULL_FORMS = ("getattr(self, 'children', [])", "self.children", "self._children")
+
+
+def children_aliases(fn):
+    """locals bound exactly once to the complete children list of self"""
+    binds = {}
+    for a in ast.walk(fn):
+        if isinstance(a, ast.Assign) and len(a.targets) == 1 and isinstance(a.targets[0], ast.Name):
+            binds.setdefault(a.targets[0].id, []).append(a.value)
+    return {n for n, vs in binds.items() if len(vs) == 1 and ast.unparse(vs[0]) in FULL_FORMS}
+
+
+def is_full(fn, it):
+    return ast.unparse(it) in FULL_FORMS or (isinstance(it, ast.Name) and it.id in children_aliases(fn))
+
+
 def child_loops(fn):
     out = []
+    al = children_aliases(fn)
     for n in ast.walk(fn):
         if isinstance(n, ast.For) and isinstance(n.target, ast.Name):
             it = ast.unparse(n.iter)
-            if "children" in it:
+            if "children" in it or (isinstance(n.iter, ast.Name) and n.iter.id in al):
                 out.append(n)
+    return out
+
+
+def _emptiness_guard(fn, test):
+    """a test that only asks whether self has children at all (`if children:` / `if not children:` / `len(children) > 0`)"""
+    t = test
+    while isinstance(t, ast.UnaryOp) and isinstance(t.op, ast.Not):
+        t = t.operand
+    if isinstance(t, ast.Compare) and len(t.ops) == 1 and isinstance(t.left, ast.Call) and getattr(t.left.func, "id", "") == "len" and t.left.args \
+            and isinstance(t.comparators[0], ast.Constant) and t.comparators[0].value in (0, 1):
+        t = t.left.args[0]
+    return is_full(fn, t)
+
+
+def _enclosing_ifs(fn, node):
+    """[(if node, True if `node` is in its body else False)] from the innermost outwards"""
+    parents = {}
+    for x in ast.walk(fn):
+        for ch in ast.iter_child_nodes(x):
+            parents[id(ch)] = x
+    out, ch, p = [], node, parents.get(id(node))
+    while p is not None:
+        if isinstance(p, ast.If) and ch is not p.test:
+            out.append((p, any(ch is b for b in p.body)))
+        ch, p = p, parents.get(id(p))
     return out
 
 
@@ -43,8 +85,7 @@ def a3(repo, res):
     loops = child_loops(fn)
     ok, why = False, "no loop over children"
     for lp in loops:
-        it = ast.unparse(lp.iter)
-        full = it in ("getattr(self, 'children', [])", "self.children", "self._children")
+        full = is_full(fn, lp.iter) and all(_emptiness_guard(fn, g.test) for g, _b in _enclosing_ifs(fn, lp))
         calls = [c for c in ast.walk(lp) if isinstance(c, ast.Call) and isinstance(c.func, ast.Attribute) and c.func.attr == "move"
                  and isinstance(c.func.value, ast.Name) and c.func.value.id == lp.target.id]
         if full and calls:
@@ -61,12 +102,25 @@ def a3(repo, res):
     res.require(fn is not None, "anchor vanished: BaseTransform._rotate")
     loops = child_loops(fn)
     ok, why = False, "no loop over children"
+    covered = set()         # which outcomes of `parent_path is None` have a complete, correct children loop
     for lp in loops:
-        it = ast.unparse(lp.iter)
-        full = it in ("getattr(self, 'children', [])", "self.children", "self._children")
+        full = is_full(fn, lp.iter)
         calls = [c for c in ast.walk(lp) if isinstance(c, ast.Call) and isinstance(c.func, ast.Attribute) and c.func.attr == "_rotate"
                  and isinstance(c.func.value, ast.Name) and c.func.value.id == lp.target.id]
         if not (full and calls):
+            continue
+        # the loop may sit under `if children:` and under one arm of a test of parent_path against None (one loop per arm)
+        ctx, foreign = None, False
+        for g, in_body in _enclosing_ifs(fn, lp):
+            t_ = ast.unparse(g.test)
+            if _emptiness_guard(fn, g.test):
+                continue
+            if t_ in ("parent_path is None", "parent_path is not None"):
+                ctx = "none" if (t_ == "parent_path is None") == in_body else "given"
+            else:
+                foreign = True
+        if foreign:
+            why = "conditional recursion"
             continue
         c = calls[0]
         args = {**{p: a for p, a in zip(("rotation", "anchor", "start", "parent_path"), c.args)}, **{k.arg: k.value for k in c.keywords}}
@@ -75,9 +129,14 @@ def a3(repo, res):
         pp_ok = False
         # resolve a local bound once inside the loop / function
         if isinstance(pp, ast.Name) and pp.id != "parent_path":
-            defs = [s for s in ast.walk(fn) if isinstance(s, ast.Assign) and any(isinstance(t, ast.Name) and t.id == pp.id for t in s.targets)]
+            defs = [s for s in ast.walk(lp) if isinstance(s, ast.Assign) and any(isinstance(t, ast.Name) and t.id == pp.id for t in s.targets)] or \
+                   [s for s in ast.walk(fn) if isinstance(s, ast.Assign) and any(isinstance(t, ast.Name) and t.id == pp.id for t in s.targets)]
             if len(defs) == 1:
                 pp = defs[0].value
+        if ctx == "none" and pp is not None and ast.unparse(pp) in ("self._position", "self.position"):
+            pp_ok = True
+        if ctx == "given" and isinstance(pp, ast.Name) and pp.id == "parent_path":
+            pp_ok = True
         if isinstance(pp, ast.IfExp):
             t, b, o = ast.unparse(pp.test), ast.unparse(pp.body), ast.unparse(pp.orelse)
             if t == "parent_path is None" and b in ("self._position", "self.position") and o == "parent_path":
@@ -98,7 +157,9 @@ def a3(repo, res):
                         pp_ok = True
                         allowed_ifs.add(id(x))
         cond = any(isinstance(x, (ast.If, ast.Break, ast.Continue)) and id(x) not in allowed_ifs for x in ast.walk(lp) if x is not lp)
-        ok = fw and pp_ok and not cond
+        if fw and pp_ok and not cond:
+            covered |= {"none", "given"} if ctx is None else {ctx}
+        ok = covered == {"none", "given"}
         why = "" if ok else ("rotation/anchor/start not forwarded unchanged" if not fw else
                              "parent_path is not `self._position if parent_path is None else parent_path`: descendants of nested collections "
                              "would rotate about an inner collection instead of the top-level one" if not pp_ok else "conditional recursion")
@@ -131,10 +192,12 @@ def a3(repo, res):
         fn = geo.setters.get(prop)
         res.require(fn is not None, f"anchor vanished: BaseGeo.{prop} setter")
         loops = child_loops(fn)
-        full = [lp for lp in loops if ast.unparse(lp.iter) in ("getattr(self, 'children', [])", "self.children", "self._children")]
+        full = [lp for lp in loops if is_full(fn, lp.iter) and all(_emptiness_guard(fn, g.test) for g, _b in _enclosing_ifs(fn, lp))]
         # every path through the loop body performs the child update (a branch that only selects how is fine; one that skips is not)
         cond = any(not _body_always_updates(lp, prop) for lp in full)
-        early = [x for x in ast.walk(fn) if isinstance(x, ast.Return) and full and x.lineno < full[0].lineno]
+        # a return before the loop is fine only as `if not children: return` (nothing to carry)
+        early = [x for x in ast.walk(fn) if isinstance(x, ast.Return) and full and x.lineno < full[0].lineno
+                 and not any(_emptiness_guard(fn, g.test) for g, _b in _enclosing_ifs(fn, x)[:1])]
         cond = cond or bool(early)
         ok = bool(full) and not cond
         res.ob(f"A3:{prop}-setter:all-children", ok, {"rule": "A3", "setter": prop, "loops": [norm(l) for l in loops]})
